@@ -164,6 +164,12 @@ func c05Schemas(thorough bool) (*SPkg, []*Schema) {
 		p2 := b.msgPkg([]SField{{Name: "x", Tag: 1, Kind: "int32"}}, svci)
 		p2.Imports = []SImport{{Pkg: b.base}}
 		b.add("service over imported types", "ok", b.base, p2)
+		// the import is referenced by service definitions only (by reference, no inline arguments): in the generator's
+		// skip-rpc mode it is an unused import, in the full mode a used one
+		svcr := &SDef{Name: "SvcR", Type: "service", Methods: []SMethod{{"get", "(base0.Sub) base0.Sub"}, {"stream", "(base0.Sub) (<-base0.Sub, base0.Sub->) base0.Sub"}, {"fire", "(base0.Sub) oneway"}}}
+		p3 := b.msgPkg([]SField{{Name: "x", Tag: 1, Kind: "int32"}}, svcr)
+		p3.Imports = []SImport{{Pkg: b.base}}
+		b.add("import referenced by services only", "ok", b.base, p3)
 	}
 	return b.base, b.out
 }
@@ -248,6 +254,21 @@ func gen(a *vlib.Args) {
 				break
 			}
 			generated[p.Key] = true
+			if mode == "c14" && sc.Expect == "ok" {
+				// the generator's other mode: without service / client code (--skip-rpc). The output goes to a package
+				// directory of its own and must be accepted by the Go compiler like the full output.
+				norpc := p.Key + "_norpc"
+				err, pan := vh.Generate([]string{src}, filepath.Join(src, p.Key), filepath.Join(out, norpc), true)
+				if pan != "" {
+					en.Generated, en.Panic = false, "skip-rpc mode: "+clipS(pan, 2500)
+					break
+				}
+				if err != nil {
+					en.Generated, en.Error = false, "skip-rpc mode: "+err.Error()
+					break
+				}
+				en.Pkgs = append(en.Pkgs, norpc)
+			}
 			if mode != "c14" {
 				writeReg(p)
 				// regeneration must be byte-identical
